@@ -82,6 +82,15 @@ func c05Call(schema *jsonapi.Schema, f func() (any, error), observe func(any) (s
 	}
 	if err != nil {
 		r := c05Result{obs: oC("fail")}
+		// a Resource or Collection is returned as an interface: with an error it must be
+		// the nil interface, not a non-nil one holding a nil pointer
+		if rv := reflect.ValueOf(res); res != nil && rv.Kind() == reflect.Ptr && rv.IsNil() {
+			switch res.(type) {
+			case *jsonapi.Document, *jsonapi.SoftResource, *jsonapi.Request: // returned as pointers
+			default:
+				r.both = true
+			}
+		}
 		if !isNilIface(res) {
 			// Identifier / Identifiers are returned by value: zero value expected
 			switch x := res.(type) {
@@ -102,7 +111,11 @@ func c05Call(schema *jsonapi.Schema, f func() (any, error), observe func(any) (s
 			return c05Result{obs: oC("neither"), both: true}
 		}
 	}
-	o, off := observe(res)
+	var o, off string
+	if po, pvo := guard(func() { o, off = observe(res) }); po {
+		// the result cannot even be read (a nil resource in a list, ...)
+		return c05Result{obs: oOk(oC("unreadable")), offSch: fmt.Sprintf("reading the result panics: %v", pvo)}
+	}
 	return c05Result{obs: oOk(o), offSch: off}
 }
 
